@@ -25,22 +25,25 @@ VARIABLES l, bad, nsent
 vars == << l, bad, nsent >>
 
 \* comparison of a recorded tree (names as strings and code points) with a CelAst tree (names as strings)
-RECURSIVE SameRA(_, _)
-SameRA(r, a) ==
-  IF a.k = "macro" THEN SameRA(r, AST!ExpandOne(a.m, a.range, a.var, a.args))
+\* strict: every application is compared as written (the fully parenthesised rendering leaves nothing to re-associate);
+\* otherwise an && / || chain is compared by its operands in source order (the parser balances flat chains)
+RECURSIVE SameRS(_, _, _)
+SameRA(r, a) == SameRS(r, a, FALSE)
+SameRS(r, a, strict) ==
+  IF a.k = "macro" THEN SameRS(r, AST!ExpandOne(a.m, a.range, a.var, a.args), strict)
   ELSE IF r.k # a.k THEN FALSE
   ELSE CASE r.k = "lit" -> Same(a.v, r.v)
          [] r.k = "id" -> r.name = a.name
-         [] r.k = "sel" -> r.fcp = a.fcp /\ r.test = a.test /\ SameRA(r.e, a.e)
-         [] r.k = "list" -> Len(r.e) = Len(a.e) /\ \A i \in 1..Len(r.e) : SameRA(r.e[i], a.e[i])
-         [] r.k = "map" -> Len(r.e) = Len(a.e) /\ \A i \in 1..Len(r.e) : SameRA(r.e[i][1], a.e[i][1]) /\ SameRA(r.e[i][2], a.e[i][2])
+         [] r.k = "sel" -> r.fcp = a.fcp /\ r.test = a.test /\ SameRS(r.e, a.e, strict)
+         [] r.k = "list" -> Len(r.e) = Len(a.e) /\ \A i \in 1..Len(r.e) : SameRS(r.e[i], a.e[i], strict)
+         [] r.k = "map" -> Len(r.e) = Len(a.e) /\ \A i \in 1..Len(r.e) : SameRS(r.e[i][1], a.e[i][1], strict) /\ SameRS(r.e[i][2], a.e[i][2], strict)
          [] r.k = "comp" -> /\ r.var = a.var /\ r.accu = a.accu
-                            /\ SameRA(r.range, a.range) /\ SameRA(r.init, a.init) /\ SameRA(r.cond, a.cond) /\ SameRA(r.step, a.step) /\ SameRA(r.res, a.res)
+                            /\ SameRS(r.range, a.range, strict) /\ SameRS(r.init, a.init, strict) /\ SameRS(r.cond, a.cond, strict) /\ SameRS(r.step, a.step, strict) /\ SameRS(r.res, a.res, strict)
          [] r.k = "call" -> /\ r.fn = a.fn
-                            /\ (r.tgt.k = "none") = (a.tgt.k = "none") /\ (r.tgt.k # "none" => SameRA(r.tgt, a.tgt))
-                            /\ LET ra == IF r.fn \in {"_&&_", "_||_"} THEN GR!FlatArgs(r.fn, r.args) ELSE r.args
-                                   aa == IF r.fn \in {"_&&_", "_||_"} THEN GR!FlatArgs(r.fn, a.args) ELSE a.args
-                               IN  Len(ra) = Len(aa) /\ \A i \in 1..Len(ra) : SameRA(ra[i], aa[i])
+                            /\ (r.tgt.k = "none") = (a.tgt.k = "none") /\ (r.tgt.k # "none" => SameRS(r.tgt, a.tgt, strict))
+                            /\ LET ra == IF ~strict /\ r.fn \in {"_&&_", "_||_"} THEN GR!FlatArgs(r.fn, r.args) ELSE r.args
+                                   aa == IF ~strict /\ r.fn \in {"_&&_", "_||_"} THEN GR!FlatArgs(r.fn, a.args) ELSE a.args
+                               IN  Len(ra) = Len(aa) /\ \A i \in 1..Len(ra) : SameRS(ra[i], aa[i], strict)
          [] OTHER -> FALSE
 
 \* every node of a returned tree (macro expansions and map / struct entries included) carries a positive id of its own:
@@ -49,7 +52,7 @@ IdsOK(o) == "ids" \in DOMAIN o => /\ \A i \in 1..Len(o.ids) : o.ids[i] > 0
                                   /\ Cardinality({ o.ids[i] : i \in 1..Len(o.ids) }) = Len(o.ids)
 VecOK(r) ==
   LET t == AST!ParsePrefix(r.syms).tree IN
-  /\ r.full.out.k = "ok" /\ SameRA(r.full.out.ast, t) /\ IdsOK(r.full.out)
+  /\ r.full.out.k = "ok" /\ SameRS(r.full.out.ast, t, TRUE) /\ IdsOK(r.full.out)
   /\ r.min.out.k = "ok" /\ SameRA(r.min.out.ast, t) /\ IdsOK(r.min.out)
 
 \* lines of a text: sequence of [chars, bytes] per line (split at \n)
